@@ -8,6 +8,7 @@ import vlib
 import yprog
 from vlib import Pool, log
 
+BATCH = 20000
 UNSUPPORTED_TOKENS = set()
 UNSUPPORTED_NODES = set()
 
@@ -78,9 +79,14 @@ def check(rep, binaries, progs, what, tag="ctwin"):
     progs = [(pid, toks) for pid, toks in progs if supported(toks)]
     if not progs:
         return 0, 0
-    twin, res = twin_run(progs, tag=tag)
-    if res.violation:
-        rep.violation("Compile.tla (%s): TLC reports\n%s" % (what, res.violation[:2000]), {"tlc": res.violation})
+    twin, wall = {}, 0.0
+    for i in range(0, len(progs), BATCH):          # bounded batches: the programs are a TLC constant
+        part, res = twin_run(progs[i:i + BATCH], tag="%s%d" % (tag, i // BATCH))
+        twin.update(part)
+        wall += res.wall
+        if res.violation:
+            rep.violation("Compile.tla (%s): TLC reports\n%s" % (what, res.violation[:2000]), {"tlc": res.violation})
+    res.wall = wall
     cases = [{"id": pid, "src": yprog.program_src(toks)} for pid, toks in progs]
     nprog = nfn = 0
     for bname, binary in binaries:
